@@ -58,6 +58,18 @@ class Seq:
     items: tuple  # python tuple/list of abstract values
 
 
+@dataclass(frozen=True)
+class Line:
+    """a 1-D profile read out of a 2-D image ALONG `axis` (one index is a vector of neighbours on that axis)"""
+    axis: str
+
+
+@dataclass(frozen=True)
+class LineVal:
+    """arithmetic of samples of such a profile — e.g. a parabolic sub-pixel offset: an offset along `axis`"""
+    axis: str
+
+
 def other(a: str) -> str:
     return COL if a == ROW else ROW
 
@@ -120,8 +132,43 @@ class KAT:
             return self._call(e)
         if isinstance(e, ast.IfExp):
             a, b = self.ev(e.body), self.ev(e.orelse)
+            if isinstance(a, LineVal) and (b is None or isinstance(b, Num)):
+                return a  # `offset if denom != 0 else 0`
             return a if a == b else None
         return None
+
+    def _vectorish(self, ix: ast.AST, depth: int = 0) -> bool:
+        """does the index expression denote several indices (built from arange / a comprehension / a literal list)?"""
+        if depth > 4:
+            return False
+        for x in ast.walk(ix):
+            if isinstance(x, (ast.ListComp, ast.List, ast.Tuple)):
+                return True
+            if isinstance(x, ast.Call) and (call_name(x) or "").split(".")[-1] in ("arange", "linspace"):
+                return True
+            if isinstance(x, ast.Name) and x is not ix or isinstance(ix, ast.Name) and x is ix:
+                for st in ast.walk(self.fn):
+                    if isinstance(st, ast.Assign) and len(st.targets) == 1 and isinstance(st.targets[0], ast.Name) and st.targets[0].id == x.id \
+                            and not any(isinstance(y, ast.Name) and y.id == x.id for y in ast.walk(st.value)):
+                        if self._vectorish(st.value, depth + 1):
+                            return True
+        return False
+
+    def _local_profile_function(self, name: str):
+        """a nested one-parameter function whose single return is arithmetic over constant-indexed samples of its parameter"""
+        for n in ast.walk(self.fn):
+            if isinstance(n, ast.FunctionDef) and n is not self.fn and n.name == name and len(n.args.args) == 1:
+                p = n.args.args[0].arg
+                rets = [x for x in ast.walk(n) if isinstance(x, ast.Return) and x.value is not None]
+                if len(rets) != 1:
+                    return False
+                for x in ast.walk(rets[0].value):
+                    if isinstance(x, ast.Name) and x.id != p:
+                        return False
+                    if isinstance(x, ast.Call):
+                        return False
+                return True
+        return False
 
     def _subscript(self, e: ast.Subscript):
         base = e.value
@@ -154,9 +201,16 @@ class KAT:
                 want = ROW if pos == 0 else COL
                 if isinstance(iv, Comp) and iv.axis != want:
                     self.clash(e, f"`{unparse(e)[:60]}` indexes the {want} axis of a 2-D array with a {iv.axis}-axis index")
+            vec = [self._vectorish(ix) for ix in e.slice.elts]
+            if vec == [True, False]:
+                return Line(ROW)
+            if vec == [False, True]:
+                return Line(COL)
             return None
         v = self.ev(base)
         sl = e.slice
+        if isinstance(v, Line):
+            return LineVal(v.axis) if isinstance(sl, ast.Constant) and isinstance(sl.value, int) else v
         if isinstance(v, Seq):
             if isinstance(sl, ast.Constant) and isinstance(sl.value, int) and -len(v.items) <= sl.value < len(v.items):
                 return v.items[sl.value]
@@ -207,6 +261,21 @@ class KAT:
                     pairs = [v for v in vals if isinstance(v, Pair)]
                     return pairs[0] if pairs else None
         l, r = self.ev(e.left), self.ev(e.right)
+        if isinstance(l, LineVal) or isinstance(r, LineVal):
+            lv, o = (l, r) if isinstance(l, LineVal) else (r, l)
+            if isinstance(o, LineVal):
+                if o.axis != lv.axis and op in (ast.Add, ast.Sub):
+                    self.clash(e, f"`{unparse(e)[:70]}` combines samples of a {lv.axis}-axis profile with samples of a {o.axis}-axis profile")
+                    return None
+                return lv
+            if isinstance(o, Comp) and op in (ast.Add, ast.Sub):
+                if o.axis != lv.axis:
+                    self.clash(e, f"`{unparse(e)[:70]}` corrects a {o.axis}-axis position with an offset estimated from samples along the {lv.axis} axis")
+                    return None
+                return o
+            if o is None or isinstance(o, Num):
+                return lv
+            return None
         if op is ast.Mult:
             for a, b in ((l, r), (r, l)):
                 if isinstance(a, Comp) and not a.freq and isinstance(b, Ext) and a.axis == ROW and b.axis == COL:
@@ -279,6 +348,10 @@ class KAT:
         cn = call_name(e) or ""
         short = cn.split(".")[-1] if cn else (e.func.attr if isinstance(e.func, ast.Attribute) else "")
         args = e.args
+        if isinstance(e.func, ast.Name) and len(args) == 1 and not e.keywords:
+            a0 = self.ev(args[0])
+            if isinstance(a0, Line) and self._local_profile_function(e.func.id):
+                return LineVal(a0.axis)
         if short in ("arange", "fftfreq", "rfftfreq") and args:
             a = self.ev(args[0] if len(args) == 1 or short != "arange" else (args[1] if len(args) >= 2 and isinstance(self.ev(args[0]), Num) else args[0]))
             if isinstance(a, Ext):
